@@ -499,6 +499,14 @@ func snapshotVal(v Value) Value {
 	return v
 }
 
+// freshAux: engine-level nondeterminism (clock, schedule, select, map order); not part of
+// the harness input vector.
+func (x *Exec) freshAux(name string, w int) *Term {
+	t := x.cx.Var(name, w)
+	x.auxVars = append(x.auxVars, t)
+	return t
+}
+
 func (x *Exec) freshInput(name string, w int) *Term {
 	t := x.cx.Var(name, w)
 	x.inVars = append(x.inVars, t)
@@ -991,12 +999,16 @@ var _ = os.Getenv
 func (x *Exec) timeNow(fr *frame) Value {
 	// time.Time{wall uint64, ext int64, loc *Location}: arbitrary non-decreasing instant
 	// (seconds since year 1 in ext, wall = 0: no monotonic reading)
-	t := x.freshInput("now", 64)
+	t := x.freshAux("now", 64)
 	lo := mkConst(64, 63_000_000_000) // ~ year 1997
 	hi := mkConst(64, 66_000_000_000) // ~ year 2092
 	x.Assume(x.cx.And(x.cx.Cmp("bvsle", lo, t), x.cx.Cmp("bvsle", t, hi)))
 	if x.clock != nil {
-		x.Assume(x.cx.Cmp("bvsle", x.clock, t))
+		if x.clockStrict {
+			x.Assume(x.cx.Cmp("bvslt", x.clock, t))
+		} else {
+			x.Assume(x.cx.Cmp("bvsle", x.clock, t))
+		}
 	}
 	x.clock = t
 	return Struct{mkConst(64, 0), t, (*Value)(nil)}
@@ -1016,6 +1028,7 @@ func init() {
 		return nil
 	})
 	rt("Yield", func(x *Exec, fr *frame, args []Value) Value { x.schedPoint(); return nil })
+	rt("ClockStrict", func(x *Exec, fr *frame, args []Value) Value { x.clockStrict = true; return nil })
 }
 
 func (x *Exec) callRTypeMethod(m *rtypeMethod, args []Value) Value {
